@@ -145,8 +145,8 @@ func (fc *FnCtx) solveObligation(ob *Obligation, timeout time.Duration) {
 		}
 		seen[text] = true
 		to := timeout
-		if ob.MustFail && to > 3*time.Second {
-			to = 3 * time.Second
+		if ob.MustFail && to > 1500*time.Millisecond {
+			to = 1500 * time.Millisecond
 		}
 		var r SolverResult
 		if fc.contract != nil && fc.contract.Opts["encoding"] == "seq" {
@@ -154,7 +154,12 @@ func (fc *FnCtx) solveObligation(ob *Obligation, timeout time.Duration) {
 		} else if ob.MustFail {
 			r = solve(text, arraySolvers, to)
 		} else {
-			r = solve2(text, fc.queryTextMode(q, true), arraySolvers, to)
+			// stage 1: one fast solver on the full text (most obligations discharge in
+			// milliseconds); stage 2: race all solvers on both renderings
+			r = solve(text, arraySolvers[1:2], 1200*time.Millisecond)
+			if r.Status != "unsat" {
+				r = solve2(text, fc.queryTextMode(q, true), arraySolvers, to)
+			}
 		}
 		if r.Ms > ob.Ms {
 			ob.Ms = r.Ms
